@@ -31,7 +31,8 @@ _BASE = {}
 
 
 def _cfg(params, calls):
-    return dict(backend=params["backend"], n_workers=2, pre_dispatch=params.get("pre_dispatch", 2),
+    return dict(backend=params["backend"], n_workers=params.get("n_workers", 2), verbose=params.get("verbose", 0),
+                pre_dispatch=params.get("pre_dispatch", 2),
                 batch_size=params.get("batch_size", 1), return_as=params.get("return_as", "list"),
                 calls=calls, use_with=params.get("use_with", False), timeout=params.get("timeout"),
                 stuck=params.get("stuck", ()), stmt=params.get("stmt", False), cb_threads=params.get("cb_threads", 1))
@@ -122,7 +123,7 @@ def ob_fail(f: int, n1: int, pos0: int, pos1: int, pk: int) -> bool:
 
 def ob_iterfail(j: int, pos0: int, pk: int) -> bool:
     """
-    pre: 0 <= j <= 6
+    pre: -1 <= j <= 6
     pre: -1 <= pos0 <= 600
     pre: 0 <= pk <= 1
     post: _
@@ -130,16 +131,38 @@ def ob_iterfail(j: int, pos0: int, pk: int) -> bool:
     H.enter()
     steps = _BASE["steps"]
     H.assume(pos0 <= steps)
-    jj = H.select(j, 0, 6)
+    jj = H.select(j, -1, 6)                      # -1: the iterable's __iter__ itself raises
     p0 = H.select_bisect(pos0, -1, steps)
     pkv = H.select(pk, 0, 1)
     with H.native():
-        calls = [dict(n_tasks=8, iter_fail_at=jj), dict(n_tasks=3)]
+        calls = [dict(n_tasks=8, iter_fail_at=jj) if jj >= 0 else dict(n_tasks=8, iter_raises=True), dict(n_tasks=3)]
         pre = [(p0, 0)] if p0 >= 0 else []
         o = parlib.run(_cfg(H.PARAMS, calls), dict(preempt=pre, picks=[pkv]))
         probs = _check_calls(o, [("iterfail", 8, jj), ("ok", 3)])
         for m in probs:
             H.note("iterator fails at %d preempt=%r: %s" % (jj, pre, m))
+        return H.verdict(not probs)
+
+
+def ob_sequential(f: int, verbose: int, n0: int) -> bool:
+    """
+    pre: 0 <= f <= 4
+    pre: 0 <= verbose <= 3
+    pre: 1 <= n0 <= 5
+    post: _
+    """
+    H.enter()
+    # n_jobs=1: the calling-thread path (no pool), at every verbosity level
+    ff, vb, nn = H.select(f, 0, 4), [0, 1, 11, 51][H.select(verbose, 0, 3)], H.select(n0, 1, 5)
+    H.assume(f < n0)
+    with H.native():
+        params = dict(H.PARAMS)
+        params.update(n_workers=1, verbose=vb)
+        calls = [dict(n_tasks=nn, fail_at=ff), dict(n_tasks=3)]
+        o = parlib.run(_cfg(params, calls), {})
+        probs = _check_calls(o, [("fail", nn, ff), ("ok", 3)])
+        for m in probs:
+            H.note("n_jobs=1 verbose=%d, %d tasks, fail_at=%d: %s" % (vb, nn, ff, m))
         return H.verdict(not probs)
 
 
@@ -235,10 +258,15 @@ def obligations(tier, seed):
                                "cb_threads": 2}, "timeout": 900,
                     "bounds": "two concurrent callback threads: call 0 (4 tasks) fails at any index; one pre-emption anywhere; "
                               "2x2 picks (completion and thread choices); then a 4-task call"})
-    for be, ra in [("threading", "list"), ("loky", "generator"), ("stub_legacy", "list"), ("stub_noabort", "list")]:
-        obs.append({"name": "iterfail/%s/%s" % (be, ra), "fn": "ob_iterfail", "mode": "S",
-                    "params": {"backend": be, "return_as": ra, "n0": 8}, "timeout": 600,
-                    "bounds": "iterator raises at item 0..6 of 8; one pre-emption anywhere; then a 3-task call"})
+    for ra in ("list", "generator"):
+        obs.append({"name": "sequential/%s" % ra, "fn": "ob_sequential", "mode": "S",
+                    "params": {"backend": "threading", "return_as": ra}, "timeout": 300,
+                    "bounds": "n_jobs=1, 1..5 tasks, failing task at any index, verbose in {0,1,11,51}; then a 3-task call"})
+    for be, ra, pdp in [("threading", "list", 2), ("loky", "generator", 2), ("stub_legacy", "list", 2), ("stub_noabort", "list", 2),
+                        ("threading", "list", "all"), ("loky", "generator", "all")]:
+        obs.append({"name": "iterfail/%s/%s/pre=%s" % (be, ra, pdp), "fn": "ob_iterfail", "mode": "S",
+                    "params": {"backend": be, "return_as": ra, "n0": 8, "pre_dispatch": pdp}, "timeout": 600,
+                    "bounds": "iterator raises at item 0..6 of 8, or its __iter__ raises; one pre-emption anywhere; then a 3-task call"})
     for be, ra in [("threading", "list"), ("loky", "list"), ("stub_cb", "generator"), ("threading", "generator_unordered")]:
         obs.append({"name": "timeout/%s/%s" % (be, ra), "fn": "ob_timeout", "mode": "S",
                     "params": {"backend": be, "return_as": ra, "n0": 5}, "timeout": 600,
